@@ -2,58 +2,70 @@
 correspondence K-C17 between Model/NN.lean (driver drv_c17) and the real
 KDTree/LCTree/KHCTree + IterativeNNQuery + TreeNearestNeighbors +
 SimpleNearestNeighbors + NearestNeighborModel (harness/c17.cpp, ASan/UBSan)."""
-import json, os, re, shutil, sys
+import json, os, re, shutil, subprocess, sys
 from vlib import core
 
 TRUST = ("Lean 4.33 kernel; axioms at most propext/Classical.choice/Quot.sound (audited per run by #audit_module); "
          "hand-written model tied to the C++ by the correspondence harness (differential, exact, generator-bounded); ")
 MANIFEST = dict(
-  text=("Theorems (Props/C17.lean) about the executable model of IterativeNNQuery (trace tree with NONE/PARTIAL/COMPLETE marks, "
-        "leaf queue ordered by leaf distance + address rank, squaredRadius, head pointer, nextIndex), for EVERY tree shape, every "
-        "admissible lower-bound function, every query and every number of next() calls: squaredRadius never exceeds the distance of a "
-        "point not yet queued (radius_is_lower_bound, needs admissible bounds only); under LeafUniform (each leaf holds copies of one "
-        "point - the header's documented precondition) the first k calls of next(), for every k <= n, return k distinct points with "
-        "their TRUE squared distances, each minimal among the points not yet returned, no point lost or returned twice (next_returns_min), "
-        "distances non-decreasing (next_distances_nondecreasing), and equal to the k smallest distances of exhaustive search in order "
-        "(tree_knn_eq_bruteforce); a kernel-decided witness shows the model - like the real code, known finding K1 - reports wrong "
-        "distances and a wrong order without LeafUniform although bounds are admissible (next_wrong_without_leafuniform, "
-        "k1Tree_hypotheses); what the search computes WITHOUT LeafUniform is characterised exactly: on every tree with distinct index "
-        "entries it is an exact search for the leaf distance (distance stored at the leaf holding the point; the real code: of the leaf's "
-        "first point) - every point once, in order (k1_exact_for_leaf_distance); kd-tree construction keeps the index list a permutation "
-        "of 0..n-1 for all bucket sizes/depth limits (indexList_perm, split_partitions), and calculateCuttingDimension declares a cell "
-        "unsplittable only if its points agree in every coordinate (calcCutDim_dim_uniform); the feature distance of the linear kernel "
-        "is the squared Euclidean distance (featureDist2_linear); NearestNeighborModel votes, soft output (any distance weights) and "
-        "predicted class depend only on the multiset of (distance,label) neighbours (nn_model_backend_independent). "
-        "NOT proved, covered by the correspondence only: split_separates and kd_bound_admissible (that the kd construction yields "
-        "admissible bounds), and that a kd cell of positive extent is always split further - instead the driver checks exactly, on "
-        "every generated real tree and query, that every bound is admissible and that the model's kd thresholds/cut dimensions/bounds "
-        "equal the real ones, and the harness checks that no tree built with bucket size 1 has a leaf with two distinct points. "
-        "Correspondence (exact, line by line): full query state after every next() (reported squared distance and index, radius, "
-        "queue size, neighbours counter, nextIndex, head, all trace marks), kd construction (shape, cut dimensions, thresholds, leaf "
-        "index sets), kNN lists (distance AND label) of TreeNearestNeighbors and SimpleNearestNeighbors, NearestNeighborModel decisions "
-        "with both back-ends (uniform: exact; 1/distance: same IEEE operations in the driver); getNeighbors/eval are called on BATCHES "
-        "of 1-4 query points; generated integer point sets (1-6 dim, duplicates with different labels, collinear, points on split "
-        "planes, far queries), data sets in batches of 1/2/3/4/7/one batch, KDTree/LCTree/KHCTree(linear kernel)/KHCTree(kernel "
-        "(<x,y>+1)^2, a non-Euclidean metric with integer feature distances; generated once finding KH1 is fixed, probed on every run), "
-        "bucket sizes 1-4, depth limits, all k (every query is run for n calls); a slice of all groups is re-run with 3 OpenMP threads "
-        "(per-thread heaps of the exhaustive search). Independent brute-force oracle in the harness (ASan/UBSan), by definition: the "
-        "enumeration returns every index once, with its true distance, i-th result = i-th smallest; a k-neighbour list has the k "
-        "smallest distances in order and reports no (distance,label) combination more often than data points with it exist (both "
-        "back-ends); predictions equal the brute-force decision when the k-neighbourhood is unambiguous."),
-  note=TRUST + "all compared quantities are exact on integer points (squared distances; the reported sqrt is compared through its "
-       "square with the nearest-double rule); LC/KHC tree geometry (normals, thresholds) is not modelled - their real per-query "
-       "lower bounds and isLeft decisions are fed to the model and their admissibility is checked per query (exactly for kd; with relative slack 2^-40 for LC/KHC, whose bounds are rounded doubles and were observed to exceed the exact distance by an ulp at n=60); the order "
-       "std::nth_element leaves inside a leaf and the heap-address tie-break are adopted from the real tree (harness annotation, "
-       "tools/c17_drv.py). LeafUniform and admissibility are hypotheses of next_returns_min; the property as stated also quantifies "
-       "over bucket sizes > 1, where the real code is wrong (known finding K1, reported by this check with a replay). The K1 key is "
-       "narrow: the harness emits it only for a tree built with maxBucketSize > 1 that has a leaf with distinct points AND whose "
-       "results pass the whole brute-force oracle w.r.t. the leaf-first distances (k1_exact_for_leaf_distance), and the check accepts "
-       "it only where the model reproduces the output line; a distinct-point leaf at bucket size 1, a repeated index, a foreign label "
-       "or any other discrepancy is a fresh violation. Open finding KH1 (KHCTree does not override kernel(): Euclidean point distances "
-       "in a kernel tree; findings_proposed/C17-KH1.patch): while open, kernel trees over the non-linear kernel are probed "
-       "(KNOWN-FINDING) but not generated. Findings T1, R1, L1, S1 found by this check were fixed in /repo; their inputs stay in corpus/C17.",
-  technique="Lean 4 invariant proof over the query state machine (all trees, all histories) + exact differential correspondence with the C++ (ASan/UBSan) + brute-force oracle",
-  design="§6 C17")
+  text=("Theorems (Props/C17.lean, 27) about executable models of the three tree constructions, of IterativeNNQuery and of "
+        "NearestNeighborModel.  QUERY (trace tree with NONE/PARTIAL/COMPLETE marks, queue ordered by (distance, tie rank), squaredRadius, "
+        "head pointer, nextIndex), for EVERY tree shape, every admissible lower-bound function, every query and number of next() calls: "
+        "squaredRadius never exceeds the distance of a point not yet queued (radius_is_lower_bound); where every queue entry carries the true "
+        "distance of its points (LeafUniform) the first k calls, every k <= n, return k distinct points with their TRUE squared distances, each "
+        "minimal among the points not yet returned (next_returns_min), non-decreasing (next_distances_nondecreasing), equal to the k smallest "
+        "distances of exhaustive search (tree_knn_eq_bruteforce, search_exact_of_ready); without LeafUniform the leaf queue of the C++ is wrong "
+        "(witness next_wrong_without_leafuniform, k1Tree_hypotheses = finding K1) and computes exactly the search for the leaf-first distances "
+        "(k1_exact_for_leaf_distance).  CONSTRUCTION, kd-tree (KDTree::buildTree, calculateCuttingDimension, BinaryTree::splitList), all data "
+        "sets/dimensions/bucket sizes/depth limits: index list a permutation (indexList_perm, split_partitions); a successful split puts values "
+        "strictly below the midpoint threshold left and strictly above right, both sides non-empty and smaller (split_separates); it fails iff "
+        "all values are equal (split_fails_iff_all_equal); 'unsplittable' only for cells of identical points (calcCutDim_dim_uniform); the "
+        "recursion terminates - any fuel >= n gives the same tree, duplicates included (kd_construction_terminates); every node's "
+        "squaredDistanceLowerBound never exceeds the true distance of any point below it, for every leaf order/address ranks the real tree may "
+        "have (kd_bound_admissible); END TO END for the C++ as it is: kd-tree with bucket size 1, any depth limit, any data and query, all "
+        "k <= n: the reported distances are the k smallest in order - NO hypothesis on the tree left (kd_search_exact: admissibility, uniform "
+        "leaves, non-empty leaves, permutation all proved from the construction).  LC-tree and KHC-tree (buildTree + calculateNormal + "
+        "splitList, ideal arithmetic, every kernel, every pivot choice): permutation, strict separation at every node, no empty leaf, "
+        "termination for all inputs, oversize leaves only where all projections coincide (lc_khc_construction); squaredDistanceLowerBound "
+        "admissible for the Euclidean LC-tree and for the KHC-tree over the kernel (<x,y>+1)^2 - Cauchy-Schwarz in the feature space, proved "
+        "for both kernels (lc_bound_admissible, khc_bound_admissible); exact search on LC/KHC trees with the leaf queue under LeafUniform "
+        "(lc_khc_search_exact_leaf_queue_partial: that a bucket-1 leaf with several points holds identical points needs the maximality of "
+        "the farthest pair, which is not proved - the harness checks it on every real tree).  POINT QUEUE (the validated repair of K1, "
+        "findings_proposed/C17-K1.patch; the harness detects at compile time which queue the tree under test has and the driver switches the "
+        "model): exact search for EVERY bucket size on kd, LC and KHC trees with no hypothesis on the tree (kd_search_exact_point_queue, "
+        "lc_search_exact_point_queue, khc_search_exact_point_queue).  MODEL: votes, soft output (any distance weights) and predicted class "
+        "depend only on the multiset of (distance,label) neighbours (nn_model_backend_independent); any two k-NN selections of the same data "
+        "predict identically when no tie crosses the k-th boundary or all points at the k-th distance share a label "
+        "(knn_prediction_determined), and otherwise the prediction is not well defined (knn_prediction_not_determined_on_ties); "
+        "featureDist2_linear.  "
+        "CORRESPONDENCE (exact, line by line, every run, both tiers): full query state after every next(); kd construction (the model's "
+        "kdTree must equal the real tree: shape, cut dimensions, thresholds, leaf index sets; adoptKD) and every kd bound/isLeft; LC/KHC "
+        "construction node by node on the real tree: the real pivot pair (read from m_normal / mep_positive, mep_negative) must be a pair of "
+        "maximal distance of the cell (cells <= 25 points), the model's splitList on the scaled projections must give the real children's "
+        "index sets and the real threshold (within 2^-40 of the projections' magnitude; where ideal projections tie across the real cut the "
+        "rounded doubles decide and the node is counted), real leaves above the bucket size must be unsplittable; LC/KHC ideal bounds "
+        "(pivTrace) against the real rounded ones (relative 2^-20) and isLeft decisions; kNN lists (distance AND label) of both back-ends, "
+        "classification (uniform exact; 1/distance same IEEE operations) AND regression (NearestNeighborModel<RealVector,RealVector>, both "
+        "weightings, tree back-end bit-exact, exhaustive one within 1e-12) on batches of 1-4 queries; k > n (tree throws, exhaustive pads and "
+        "votes for class 0); generated integer point sets (1-6 dim; grid, collinear, duplicates with differing labels, all points equal, one "
+        "varying coordinate, points on the cut value, two values; coordinates times 2^e for e in -20..30), data batches of 1/2/3/4/7/one, "
+        "KDTree/LCTree/KHCTree(linear)/KHCTree((<x,y>+1)^2), bucket sizes 1-4, depth limits, k=1/k=n/1<k<n, a second tree on the same data; "
+        "a slice re-run with 3 OpenMP threads.  Independent brute-force oracle in the harness (ASan/UBSan), by definition."),
+  note=TRUST + "all compared quantities are exact on the integer grid (squared distances; the reported sqrt is compared through its "
+       "square with the nearest-double rule); the order std::nth_element leaves inside a range and the heap-address tie-break are "
+       "adopted from the real tree (harness annotation, tools/c17_drv.py) - therefore the LC/KHC pivot pair is READ from the real node and "
+       "checked to be a farthest pair instead of being predicted (with ties in the maximal distance the choice depends on that order; the "
+       "theorems hold for every pivot choice), and cells of more than 25 points (sampled pivots) are checked for everything but the "
+       "farthest-pair property; LC/KHC doubles are rounded: their real bounds are fed to the query model (admissibility checked per query "
+       "with slack 2^-40) and compared with the ideal model's bounds. The property as stated quantifies over bucket sizes > 1, where the "
+       "real code is wrong (known finding K1, reported with a replay; narrow key: only for the leaf-queue code, a tree built with "
+       "maxBucketSize > 1 that has a leaf with distinct points AND whose results pass the whole brute-force oracle w.r.t. the leaf-first "
+       "distances, and only where the model reproduces the output line). Open findings found in this round: NB1 (m_neighbors counts leaves: "
+       "neighbors() wrong, next() beyond n reads the empty queue; probed on every run, k > n generated only on single-point leaves while "
+       "open) and REG1 (regression model's setDistanceWeightType cannot be instantiated; compile probe); K1 and NB1 share the validated "
+       "patch C17-K1.patch. Findings T1, R1, L1, S1, KH1 were fixed in /repo; their inputs stay in corpus/C17.",
+  technique="Lean 4 invariant proof over the query state machine and structural induction over the three tree constructions (all inputs) + exact differential correspondence with the C++ (ASan/UBSan) + brute-force oracle",
+  design="§6 C17, §14 C17")
 
 FINISH = dict(level="proof",
               rule="cases = (batch size, integer point set, labels, tree kind/bucket/depth, queries, batched knn/model calls) from one "
@@ -72,13 +84,31 @@ ENV = {"OMP_NUM_THREADS": "1", "OMP_WAIT_POLICY": "passive"}
 # --------------------------------------------------------------------------- generators
 def gen_points(r, ctx, kind, allow_dups, big):
     dim = r.choice([1, 1, 2, 2, 2, 3, 3, 4, 5, 6])
-    sizes = [1, 2, 3, 4, 5, 6, 7, 8, 10, 13, 17] + ([25, 31, 40, 60] if big else [])
+    sizes = [1, 2, 3, 4, 5, 6, 7, 8, 10, 13, 17] + ([25, 26, 31, 40, 60] if big else [])
     n = r.choice(sizes)
-    style = r.choice(["grid", "grid", "wide", "collinear", "dups", "even", "even", "cluster"])
-    if not allow_dups and style in ("dups",):
+    style = r.choice(["grid", "grid", "wide", "collinear", "dups", "dups", "even", "even", "cluster",
+                      "all-equal", "one-coordinate-varies", "axis-plane", "two-values"])
+    if not allow_dups and style in ("dups", "all-equal", "two-values"):
         style = "wide"
     pts = []
-    if style == "grid":        # tiny coordinate range: many ties, equal coordinates, duplicates
+    if style == "all-equal":      # every point the same: the root cannot be split, whatever the bucket size
+        c = [r.range(-9, 9) for _ in range(dim)]
+        pts = [list(c) for _ in range(n)]
+    elif style == "one-coordinate-varies":   # all coordinates equal except one (the kd cut dimension is forced)
+        c = [r.range(-9, 9) for _ in range(dim)]
+        d0 = r.below(dim)
+        pts = []
+        for _ in range(n):
+            q = list(c); q[d0] = r.range(-6, 6); pts.append(q)
+    elif style == "axis-plane":   # many points share the median coordinate of some dimension (points ON the cut value)
+        d0 = r.below(dim)
+        m = r.range(-3, 3)
+        pts = [[(m if (d == d0 and r.chance(2, 3)) else r.range(-5, 5)) for d in range(dim)] for _ in range(n)]
+    elif style == "two-values":   # two distinct points, many copies each (labels differ between copies)
+        a = [r.range(-4, 4) for _ in range(dim)]
+        b = list(a); b[r.below(dim)] += r.choice([-3, -1, 1, 2])
+        pts = [list(r.choice([a, b])) for _ in range(n)]
+    elif style == "grid":        # tiny coordinate range: many ties, equal coordinates, duplicates
         pts = [[r.range(0, 3) for _ in range(dim)] for _ in range(n)]
     elif style == "wide":
         pts = [[r.range(-50, 50) for _ in range(dim)] for _ in range(n)]
@@ -103,7 +133,9 @@ def gen_points(r, ctx, kind, allow_dups, big):
             seen.add(tuple(p)); out.append(p)
         pts = out
     ctx.hist("point_style", style); ctx.hist("dim", dim); ctx.hist("n", n)
-    ctx.hist("has_duplicates", len({tuple(p) for p in pts}) < len(pts))
+    nd = len({tuple(p) for p in pts})
+    ctx.hist("has_duplicates", nd < len(pts))
+    ctx.hist("distinct_points", "1" if nd == 1 else ("2" if nd == 2 else ("all" if nd == len(pts) else "some-duplicates")))
     return dim, pts
 
 
@@ -125,13 +157,24 @@ def gen_query(r, ctx, dim, pts):
     return q
 
 
-def gen_k(r, ctx, n, pts, labels):
-    k = r.range(1, n)
-    ctx.hist("k_over_n", "k=n" if k == n else ("k=1" if k == 1 else "1<k<n"))
+def gen_k(r, ctx, n, pts, labels, beyond=False):
+    x = r.below(100)
+    if beyond and x < 6:
+        k = n + r.range(1, 3)          # outside the property's quantifier: tree back-end throws, exhaustive one pads
+    elif x < 25:
+        k = n
+    elif x < 40:
+        k = 1
+    else:
+        k = r.range(1, n)
+    ctx.hist("k_over_n", "k>n" if k > n else ("k=n" if k == n else ("k=1" if k == 1 else "1<k<n")))
     return k
 
 
 ROOT_LEAF_OK = True
+# may next() be called more than n times on a tree with multi-point leaves?  (finding NB1: the guard "No more
+# neighbors available" counts leaves, the call reads the empty queue)
+BEYOND_N_OK = False
 
 
 def gen_case(r, ctx, kinds, allow_lc_dups, big, buckets):
@@ -146,6 +189,11 @@ def gen_case(r, ctx, kinds, allow_lc_dups, big, buckets):
             break
     ctx.hist("root_is_leaf", root_leaf)
     ops = []
+    # huge / tiny magnitudes: all coordinates times 2^e (every squared distance stays exact); not for the
+    # polynomial kernel, whose offset 1 does not scale
+    e = r.choice([-20, -7, 16, 30]) if (kind != "khcp" and r.chance(1, 7)) else 0
+    ops.append(f"scale {e}")
+    ctx.hist("coordinate_scale_2^e", e)
     if r.chance(1, 3):      # batch structure of the data set (default: batches of 3)
         b = r.choice([1, 2, 4, 7, 1000])
         ops.append(f"batch {b}")
@@ -157,27 +205,43 @@ def gen_case(r, ctx, kinds, allow_lc_dups, big, buckets):
     labels = [r.below(nc) for _ in range(n)]
     labels[r.below(n)] = nc - 1
     ops.append("labels " + " ".join(str(l) for l in labels))
+    bylab = {}
+    for pt, l in zip(pts, labels):
+        bylab.setdefault(tuple(pt), set()).add(l)
+    ctx.hist("duplicates_with_different_labels", any(len(v) > 1 for v in bylab.values()))
     depth = r.choice([0, 0, 0, 1, 2, 3, 5])
     ops.append(f"build {kind} {depth} {bucket}")
     ctx.hist("tree_kind", kind); ctx.hist("bucket", bucket); ctx.hist("max_depth", depth)
     for _ in range(r.range(2, 4)):
         ops.append("query " + " ".join(str(x) for x in gen_query(r, ctx, dim, pts)))
     # getNeighbors / eval are called on BATCHES of 1-4 query points (one op = one call)
+    # k > n only where the real code is defined: every leaf holds one point (or finding NB1 is repaired)
+    beyond = BEYOND_N_OK or (bucket <= 1 and len({tuple(p) for p in pts}) == n)
     for _ in range(r.range(1, 3)):
-        k = gen_k(r, ctx, n, pts, labels)
+        k = gen_k(r, ctx, n, pts, labels, beyond=beyond)
         m = r.choice([1, 1, 2, 3, 4])
         ops.append(f"knn {k} 0 " + " ".join(str(x) for _ in range(m) for x in gen_query(r, ctx, dim, pts)))
         ctx.hist("batch_rows", m)
     for _ in range(r.range(1, 3)):
-        k = gen_k(r, ctx, n, pts, labels)
+        k = gen_k(r, ctx, n, pts, labels, beyond=beyond)
         m = r.choice([1, 1, 2, 3, 4])
-        ops.append(f"model {k} {r.below(2)} " + " ".join(str(x) for _ in range(m) for x in gen_query(r, ctx, dim, pts)))
-        ctx.hist("batch_rows", m)
-    if r.chance(1, 4):   # a second tree over the same data
-        kind2 = r.choice(kinds); b2 = r.choice(buckets)
+        w = r.below(2)
+        ops.append(f"model {k} {w} " + " ".join(str(x) for _ in range(m) for x in gen_query(r, ctx, dim, pts)))
+        ctx.hist("batch_rows", m); ctx.hist("model_op", "classification," + ("1/distance" if w else "uniform"))
+    if r.chance(1, 2):      # regression model (RealVector labels) with both back-ends
+        k = gen_k(r, ctx, n, pts, labels)
+        m = r.choice([1, 1, 2, 3])
+        w = r.below(2)
+        ops.append(f"reg {k} {w} " + " ".join(str(x) for _ in range(m) for x in gen_query(r, ctx, dim, pts)))
+        ctx.hist("batch_rows", m); ctx.hist("model_op", "regression," + ("1/distance" if w else "uniform"))
+    if r.chance(1, 4):   # a second tree over the same data (object reuse: same data set, new tree, new queries)
+        kind2 = r.choice([k2 for k2 in kinds if k2 != "khcp" or e == 0]); b2 = r.choice(buckets)
         if (kind2 == "kd" or allow_dups) and (ROOT_LEAF_OK or n > max(b2, 1)):
             ops.append(f"build {kind2} {r.choice([0, 2])} {b2}")
             ops.append("query " + " ".join(str(x) for x in gen_query(r, ctx, dim, pts)))
+            k = gen_k(r, ctx, n, pts, labels)
+            ops.append(f"knn {k} 0 " + " ".join(str(x) for x in gen_query(r, ctx, dim, pts)))
+            ctx.hist("second_tree_on_same_data", kind2)
     return ops
 
 
@@ -249,6 +313,36 @@ def nontrivial(ops):
     return int(t[2]) >= 4
 
 
+# finding REG1: the regression model's setDistanceWeightType / getDistanceWeightType cannot be instantiated
+def reg_probe(ctx):
+    src = os.path.join(core.VERIF, "harness", "c17_regprobe.cpp")
+    cmd = ["g++", "-std=c++11", "-w", "-fsyntax-only", "-DNDEBUG", "-I" + ctx.shark_h(),
+           "-I" + os.path.join(core.REPO, "include"), src]
+    p = subprocess.run(cmd, stdout=subprocess.PIPE, stderr=subprocess.PIPE, text=True)
+    ok = p.returncode == 0
+    ctx.cov["regression_model_weight_setter_instantiable"] = ok
+    if not ok:
+        errs = [l for l in p.stderr.splitlines() if "error" in l][:3]
+        key = ("REG1:regression-model-setDistanceWeightType-not-instantiable"
+               if any("decisionFunction" in l for l in errs) else "regprobe-does-not-compile")
+        ctx.violation(key, {"cmd": cmd, "errors": errs}, found_input=True,
+                      what="NearestNeighborModel<RealVector,RealVector>::setDistanceWeightType does not compile: " + " | ".join(errs))
+
+
+def drv_stats(ctx):
+    """statistics the Lean driver printed on stderr (collected by tools/c17_drv.py)"""
+    path = os.path.join(ANNOT, "stats.txt")
+    tot = {}
+    if os.path.exists(path):
+        for l in open(path):
+            t = l.split()
+            if t[:1] == ["STAT"]:
+                for k, v in zip(t[1::2], t[2::2]):
+                    tot[k] = tot.get(k, 0) + int(v)
+    for k, v in tot.items():
+        ctx.cov[k] = v
+
+
 # --------------------------------------------------------------------------- correspondence with known-finding pre-pass
 def correspond(ctx, name, cases, hcmd, dcmd, ENV=ENV):
     """One batched run; cases whose ONLY failures are oracle tags of known findings (and whose
@@ -312,18 +406,23 @@ L1_PROBE = [["data 2 3 1 1 1 1 5 5", "labels 0 0 1", "build lc 0 1", "query 0 0"
             ["data 1 4 7 7 3 9", "labels 0 0 1 1", "build khc 0 1", "query 1"]]
 
 
+# next() beyond the last point on a tree whose leaf holds two copies of one point (finding NB1): k = 3 > n = 2
+NB1_PROBE = [["data 1 2 5 5", "labels 0 1", "build kd 0 1", "knn 3 0 4"]]
+
+
 # kernel-induced metric: 2 points, the Euclidean-nearest of the query is not the kernel-nearest (finding KH1)
 KH1_PROBE = [["data 1 2 -3 2", "labels 0 1", "build khcp 0 1", "query -1", "knn 1 0 -1", "model 1 0 -1"]]
 
 
 def run(ctx):
     ctx.trusted += ["correspondence harness harness/c17.cpp + generator checks/c17.py + tools/c17_drv.py",
-                    "hand-written model Model/NN.lean (TreeNearestNeighbors.h, KDTree.h, BinaryTree.h are modelled, not translated)",
-                    "LC/KHC lower bounds and isLeft decisions, leaf order and node address ranks are read from the real tree (checked for admissibility / consistency per query)",
+                    "hand-written model Model/NN.lean (TreeNearestNeighbors.h, KDTree.h, LCTree.h, KHCTree.h, BinaryTree.h, NearestNeighborModel.h are modelled, not translated)",
+                    "leaf order, node address ranks and the LC/KHC pivot pairs are read from the real tree; LC/KHC real (rounded) lower bounds drive the query model (checked for admissibility per query and against the ideal model's bounds)",
                     "ASan/UBSan runtime for the real code's memory safety (not a theorem)"]
     ctx.assumptions += ["integer coordinates (|x| <= 2000, <= 6 dimensions): all squared distances and kd bounds are exact in double",
                         "next() is called at most n times per query (the C++ precondition)",
-                        "theorem next_returns_min assumes LeafUniform and admissible lower bounds; both are checked on every generated real tree (oracle / adm flag)"]
+                        "kd_search_exact needs no hypothesis on the tree; LC/KHC theorems are about ideal arithmetic (the C++ rounds), their leaf-queue version assumes LeafUniform (checked on every real tree by the harness)",
+                        "points and query have the same number of coordinates"]
     ctx.prove(PROP_MODULES)
     if not ctx.quick:
         ctx.leanchecker(PROP_MODULES)
@@ -336,6 +435,7 @@ def run(ctx):
     hcmd = [exe, ANNOT]
     dcmd = [sys.executable, DRV_WRAPPER, drv, ANNOT]
     r = ctx.rng.fork("c17")
+    reg_probe(ctx)
 
     # corpus first (each file one case)
     corpus = load_corpus()
@@ -365,8 +465,21 @@ def run(ctx):
     if not all(x.ok for x in res):
         correspond(ctx, "K-C17[R1-probe]", R1_PROBE, hcmd, dcmd) if root_leaf_ok else \
             core.correspond(ctx, "K-C17[R1-probe]", R1_PROBE, hcmd, dcmd, classify, env=ENV, keep_prefix=4)
-    global ROOT_LEAF_OK
+    global ROOT_LEAF_OK, BEYOND_N_OK
     ROOT_LEAF_OK = root_leaf_ok
+
+    # is the end-of-data guard of next() effective on multi-point leaves? (finding NB1)
+    res = [core.run_case(ctx, hcmd, dcmd, c, env=ENV) for c in NB1_PROBE]
+    BEYOND_N_OK = all(x.ok for x in res)
+    ctx.cov["k_beyond_n_generated_on_multi_point_leaves"] = BEYOND_N_OK
+    if not BEYOND_N_OK:
+        x = res[0]
+        if x.crash and "getNextPoint" in x.stderr and "AddressSanitizer" in x.stderr:
+            ctx.violation("NB1:neighbors-counts-leaves:next-beyond-n-reads-empty-queue",
+                          {"harness_cmd": hcmd, "driver_cmd": dcmd, "ops": NB1_PROBE[0], "stderr": x.stderr[-1500:]},
+                          found_input=True, what=f"IterativeNNQuery::next() beyond the last point reads the empty queue on ops {NB1_PROBE[0]}")
+        else:
+            core.correspond(ctx, "K-C17[NB1-probe]", NB1_PROBE, hcmd, dcmd, classify, env=ENV, keep_prefix=4)
 
     nA, nB, nC = (2000, 500, 1000) if ctx.quick else (16000, 4000, 8000)
     groups = [
@@ -378,7 +491,7 @@ def run(ctx):
     allcases = [c for _, cs in groups for c in cs]
     ctx.cov["evaluations"] = len(allcases) + len(corpus)
     ctx.cov["distinct_nontrivial"] = len({"\n".join(c) for c in allcases if nontrivial(c)})
-    ctx.cov["queries"] = sum(1 for c in allcases for o in c if o.split()[0] in ("query", "knn", "model"))
+    ctx.cov["queries"] = sum(1 for c in allcases for o in c if o.split()[0] in ("query", "knn", "model", "reg"))
     ctx.sample({"ops": allcases[len(allcases) // 2][:6]})
     for gname, cs in groups:
         correspond(ctx, f"K-C17[{gname}]", cs, hcmd, dcmd)
@@ -388,11 +501,17 @@ def run(ctx):
     mt = [c for _, cs in groups for c in cs[:nT]]
     ctx.cov["cases_rerun_with_3_threads"] = len(mt)
     correspond(ctx, "K-C17[3 threads]", mt, hcmd, dcmd, ENV=dict(ENV, OMP_NUM_THREADS="3"))
+    drv_stats(ctx)
     shutil.rmtree(ANNOT, ignore_errors=True)
     ctx.sample({"theorems": ["radius_is_lower_bound", "next_returns_min", "next_distances_nondecreasing",
-                             "tree_knn_eq_bruteforce", "next_wrong_without_leafuniform", "k1Tree_hypotheses",
-                             "k1_exact_for_leaf_distance", "indexList_perm", "split_partitions", "calcCutDim_dim_uniform",
-                             "featureDist2_linear", "nn_model_backend_independent"]})
+                             "tree_knn_eq_bruteforce", "search_exact_of_ready", "next_wrong_without_leafuniform", "k1Tree_hypotheses",
+                             "k1_exact_for_leaf_distance", "indexList_perm", "split_partitions", "split_separates",
+                             "split_fails_iff_all_equal", "calcCutDim_dim_uniform", "kd_construction_terminates",
+                             "kd_bound_admissible", "kd_search_exact", "kd_search_exact_point_queue", "lc_khc_construction",
+                             "lc_bound_admissible", "khc_bound_admissible", "lc_search_exact_point_queue",
+                             "khc_search_exact_point_queue", "lc_khc_search_exact_leaf_queue_partial", "featureDist2_linear",
+                             "nn_model_backend_independent", "knn_prediction_determined",
+                             "knn_prediction_not_determined_on_ties"]})
 
 
 def replay(ctx, rep):
